@@ -253,7 +253,37 @@ func ClassifyDump(dump string) string { return classifyDump(dump, false) }
 // only knows wait durations as of the last garbage collection).
 func ClassifyStalledDump(dump string) string { return classifyDump(dump, true) }
 
+// activeInCodeUnderTest: some goroutine is executing (running, runnable or in a system call) inside updog or bbolt
+// code. A process in which that is the case is making progress, however many other goroutines wait for a lock the
+// busy one holds; it is slow, not stuck.
+func activeInCodeUnderTest(dump string) bool {
+	for _, g := range strings.Split(dump, "\n\n") {
+		if !strings.HasPrefix(strings.TrimSpace(g), "goroutine ") {
+			continue
+		}
+		st := GoroutineState(g)
+		if st != "running" && st != "runnable" && st != "syscall" {
+			continue
+		}
+		for _, line := range strings.Split(g, "\n")[1:] {
+			if strings.HasPrefix(line, "\t") {
+				continue
+			}
+			if strings.Contains(line, "/verifharness") {
+				continue
+			}
+			if strings.HasPrefix(line, "github.com/akrennmair/updog") || strings.HasPrefix(line, "go.etcd.io/bbolt") {
+				return true
+			}
+		}
+	}
+	return false
+}
+
 func classifyDump(dump string, stalled bool) string {
+	if activeInCodeUnderTest(dump) {
+		return ""
+	}
 	var found []string
 	for _, g := range strings.Split(dump, "\n\n") {
 		if !strings.HasPrefix(strings.TrimSpace(g), "goroutine ") {
